@@ -98,18 +98,25 @@ Section Constr.
   Definition sq (x : A) : A := mul x x.
   (* jnp.linalg.norm of a vector *)
   Definition norm (w : list A) : A := n_sqrt O (sum O (map sq w)).
-  (* get_act_scale: wtu = u @ w; m = -1 + log(1 + softplus(wtu)); u + (m - wtu) * w / norm(w) ** 2 *)
+  (* get_act_scale: wtu = u @ w; m = -1 + log(1 + softplus(wtu));
+     if negative_slope is not None: m = m / max(1.0, negative_slope)      (fix e65a946)
+     u + (m - wtu) * w / norm(w) ** 2 *)
   Definition planar_m (wtu : A) : A := add (k (-1)) (n_log O (add (k 1) (softplus wtu))).
-  Definition planar_act_scale (w u : list A) : list A :=
+  Definition planar_mk (slope : option A) (wtu : A) : A :=
+    match slope with None => planar_m wtu | Some s => div (planar_m wtu) (nmax O (k 1) s) end.
+  Definition planar_act_scale (slope : option A) (w u : list A) : list A :=
     let wtu := dot O u w in
-    let m := planar_m wtu in
+    let m := planar_mk slope wtu in
     let n2 := sq (norm w) in
     map (fun p => add (fst p) (div (mul (sub m wtu) (snd p)) n2)) (combine u w).
   (* the quantity the constraint is about: w . u_hat *)
-  Definition planar_wu (w u : list A) : A := dot O w (planar_act_scale w u).
-  (* inverse_and_log_det: us = u_hat * slope; denominator = 1 + w @ us *)
-  Definition planar_denom (s : A) (w u : list A) : A :=
-    add (k 1) (dot O w (map (fun x => mul x s) (planar_act_scale w u))).
+  Definition planar_wu (slope : option A) (w u : list A) : A := dot O w (planar_act_scale slope w u).
+  (* inverse_and_log_det: us = u_hat * slope; denominator = 1 + w @ us   (s = 1 or negative_slope) *)
+  Definition planar_denom_with (uhat : list A) (s : A) (w : list A) : A :=
+    add (k 1) (dot O w (map (fun x => mul x s) uhat)).
+  Definition planar_denom (slope s : A) (w u : list A) : A := planar_denom_with (planar_act_scale (Some slope) w u) s w.
+  (* the formula before the fix: no division by max(1, negative_slope) *)
+  Definition planar_denom_old (slope : A) (w u : list A) : A := planar_denom_with (planar_act_scale None w u) slope w.
   (* if negative_slope <= 0: raise ValueError  (raised by _UnconditionalPlanar.__init__, i.e. at first use) *)
   Definition planar_rejects (s : A) : bool := n_leb O s (k 0).
 
